@@ -6,7 +6,7 @@
 From Coq Require Import QArith List Bool Arith.
 From NurbsV Require Import Base.Res Base.QList Spec.KnotSpec Gen.Consts Model.KV Model.Basis Model.CurveM Model.Ops
   Model.CurveOps Model.Linalg Model.Quadrature Model.LeastSq Model.CurveLS.
-From NurbsV Require Import Proofs.MatProofs Proofs.RemoveBasic.
+From NurbsV Require Import Proofs.MatProofs Proofs.LSProofs Proofs.RemoveBasic.
 Import ListNotations.
 Open Scope Q_scope.
 Theorem C11_inverse_certified :
@@ -46,6 +46,135 @@ Theorem C11_minimal_discrete :
        length b = n -> length y = m -> norm2 (vsub (mvec A (mvec Mx b)) b) <= norm2 (vsub (mvec A y) b).
 Proof. exact lstsq_minimal. Qed.
 Print Assumptions C11_minimal_discrete.
+
+(* ---- the model's continuous projection (Proofs/LSProofs.v): <.,.> below is the model's composite quadrature
+   inner product (Gram matrices FF, GF, GG over the quadrature nodes `quad_nodes`), which the per-case oracle of the
+   check shows to be the exact L2 product of the polynomial pieces for the generated inputs. ---- *)
+Theorem C11_normal_equations :
+  forall (kold knew : kv) (T E : mat) (g : grams),
+       spline2spline kold knew None = Ok (T, E) ->
+       grams_of kold knew = Ok g -> meq (mmul_n (knpts kold) (gGG g) T) (gGF g).
+Proof. exact spline2spline_normal_equations. Qed.
+Print Assumptions C11_normal_equations.
+
+Theorem C11_error_is_squared_residual :
+  forall (kold knew : kv) (T E : mat) (g : grams),
+       spline2spline kold knew None = Ok (T, E) ->
+       grams_of kold knew = Ok g ->
+       forall x : list Q,
+       (0 < knpts knew)%nat ->
+       length x = knpts kold ->
+       dot x (mvec E x) == dot x (mvec (gFF g) x) - dot (mvec T x) (mvec (gGG g) (mvec T x)).
+Proof. exact spline2spline_error_pythagoras. Qed.
+Print Assumptions C11_error_is_squared_residual.
+
+Theorem C11_reproduces_in_space :
+  forall (kold knew : kv) (T E : mat) (g : grams),
+       spline2spline kold knew None = Ok (T, E) ->
+       grams_of kold knew = Ok g ->
+       forall a b : list Q,
+       length a = knpts kold ->
+       length b = knpts knew ->
+       (forall (u : Q) (f gk : list Q),
+        In u (quad_nodes kold knew) ->
+        basis_row kold (kdeg kold) u = Ok f -> basis_row knew (kdeg knew) u = Ok gk -> dot f a == dot gk b) ->
+       veq (mvec T a) b.
+Proof. exact spline2spline_reproduces. Qed.
+Print Assumptions C11_reproduces_in_space.
+
+Theorem C11_refinement_gives_transpose :
+  forall (kold knew : kv) (T E : mat) (g : grams),
+       spline2spline kold knew None = Ok (T, E) ->
+       grams_of kold knew = Ok g ->
+       forall R : mat,
+       shaped (knpts kold) (knpts knew) R ->
+       (forall (u : Q) (f gk : list Q),
+        In u (quad_nodes kold knew) ->
+        basis_row kold (kdeg kold) u = Ok f -> basis_row knew (kdeg knew) u = Ok gk -> veq f (mvec R gk)) ->
+       meq T (mtrans_n (knpts knew) R).
+Proof. exact spline2spline_refinement. Qed.
+Print Assumptions C11_refinement_gives_transpose.
+
+Theorem C11_projection_is_left_inverse :
+  forall (kold knew : kv) (T E : mat) (g : grams),
+       spline2spline kold knew None = Ok (T, E) ->
+       grams_of kold knew = Ok g ->
+       forall S : mat,
+       shaped (knpts knew) (knpts kold) S ->
+       (forall (u : Q) (f gk : list Q),
+        In u (quad_nodes kold knew) ->
+        basis_row kold (kdeg kold) u = Ok f -> basis_row knew (kdeg knew) u = Ok gk -> veq gk (mvec S f)) ->
+       meq (mmul_n (knpts knew) T (mtrans_n (knpts kold) S)) (ident (knpts knew)).
+Proof. exact spline2spline_left_inverse. Qed.
+Print Assumptions C11_projection_is_left_inverse.
+
+Theorem C11_interpolates_at_nodes :
+  forall (kold knew : kv) (ns : list Q) (T E : mat) (g : grams) (F G : mat),
+       spline2spline kold knew (Some ns) = Ok (T, E) ->
+       grams_of kold knew = Ok g ->
+       mapM (basis_row kold (kdeg kold)) ns = Ok F ->
+       mapM (basis_row knew (kdeg knew)) ns = Ok G -> meq (mmul_n (knpts kold) G T) F.
+Proof. exact spline2spline_interpolates. Qed.
+Print Assumptions C11_interpolates_at_nodes.
+
+Theorem C11_constrained_multiplier :
+  forall (kold knew : kv) (ns : list Q) (T E : mat) (g : grams) (F G : mat),
+       spline2spline kold knew (Some ns) = Ok (T, E) ->
+       grams_of kold knew = Ok g ->
+       mapM (basis_row kold (kdeg kold)) ns = Ok F ->
+       mapM (basis_row knew (kdeg knew)) ns = Ok G ->
+       (0 < length ns)%nat ->
+       exists Lambda : mat,
+         shaped (length ns) (knpts kold) Lambda /\
+         meq (msub (mmul_n (knpts kold) (gGG g) T) (gGF g))
+           (mmul_n (knpts kold) (mtrans_n (knpts knew) G) Lambda).
+Proof. exact spline2spline_multiplier. Qed.
+Print Assumptions C11_constrained_multiplier.
+
+Theorem C11_constrained_orthogonal :
+  forall (kold knew : kv) (ns : list Q) (T E : mat) (g : grams) (F G : mat),
+       spline2spline kold knew (Some ns) = Ok (T, E) ->
+       grams_of kold knew = Ok g ->
+       mapM (basis_row kold (kdeg kold)) ns = Ok F ->
+       mapM (basis_row knew (kdeg knew)) ns = Ok G ->
+       forall v z : list Q,
+       (0 < length ns)%nat ->
+       length v = knpts kold ->
+       length z = knpts knew ->
+       veq (mvec G z) (repeat 0 (length ns)) -> dot z (vsub (mvec (gGG g) (mvec T v)) (mvec (gGF g) v)) == 0.
+Proof. exact spline2spline_constrained_orthogonal. Qed.
+Print Assumptions C11_constrained_orthogonal.
+
+Theorem C11_constrained_error :
+  forall (kold knew : kv) (ns : list Q) (T E : mat) (g : grams) (F G : mat),
+       spline2spline kold knew (Some ns) = Ok (T, E) ->
+       grams_of kold knew = Ok g ->
+       mapM (basis_row kold (kdeg kold)) ns = Ok F ->
+       mapM (basis_row knew (kdeg knew)) ns = Ok G ->
+       forall x : list Q,
+       (0 < length ns)%nat ->
+       length x = knpts kold ->
+       dot x (mvec E x) ==
+       (1 # 2) *
+       (dot x (mvec (gFF g) x) - 2 * dot (mvec T x) (mvec (gGF g) x) +
+        dot (mvec T x) (mvec (gGG g) (mvec T x))).
+Proof. exact spline2spline_constrained_error. Qed.
+Print Assumptions C11_constrained_error.
+
+Theorem C11_too_many_nodes_refused :
+  forall (kold knew : kv) (ns : list Q),
+       (knpts knew < length ns)%nat -> spline2spline kold knew (Some ns) = Err NotImplementedError.
+Proof. exact spline2spline_refuses. Qed.
+Print Assumptions C11_too_many_nodes_refused.
+
+Theorem C11_gram_symmetric :
+  forall (kold knew : kv) (g : grams),
+       grams_of kold knew = Ok g ->
+       forall x y : list Q,
+       length x = knpts knew -> length y = knpts knew -> dot x (mvec (gGG g) y) == dot y (mvec (gGG g) x).
+Proof. exact grams_of_GG_symmetric. Qed.
+Print Assumptions C11_gram_symmetric.
+
 
 (* non-vacuity: projecting a degree-2 curve with an interior knot onto the Bezier space of degree 2 *)
 Example C11_nonvacuous :
